@@ -108,7 +108,7 @@ Definition pytorch_load_fn (c : ctx) : res (option rissue) :=
 (* B202 tarfile_unsafe_members                                                                 *)
 
 Inductive members_val :=
-| MFunction (id : pstr)        (* {'Function': arg.func.id} *)
+| MFunction (id : pstr)        (* {'Function': <callee name>} *)
 | MOtherName (id : pstr)       (* {'Other': arg.id} *)
 | MOtherNode (n : node).       (* {'Other': <ast object>} *)
 
@@ -138,20 +138,22 @@ Definition tar_issue (g : tar_grade) (m : pstr) : rissue :=
   | TarHigh => mk_issue HIGH HIGH 22 tar_high_text None
   end.
 
-(* get_members_value: None = the loop ends without a return *)
-Definition members_of_value (arg : node) : res members_val :=
-  if is_cls "Call" arg then
-    match field_opt "id" (field "func" arg) with
-    | Some (NId f) => Ok (MFunction f)
-    | _ => Raise AttributeError             (* arg.func.id on a non-Name *)
-    end
-  else if is_cls "Name" arg then Ok (MOtherName (name_id arg))
-  else Ok (MOtherNode arg).
+(* get_members_value: None = the loop ends without a return.
+   For a Call value: name = func.id if isinstance(func, ast.Name) else None;
+                     {"Function": name or getattr(func, "attr", "")} *)
+Definition members_callee_name (func : node) : pstr :=
+  let name := if is_cls "Name" func then name_id func else [] in
+  if truthy_str name then name else attr_of func.
+
+Definition members_of_value (arg : node) : members_val :=
+  if is_cls "Call" arg then MFunction (members_callee_name (field "func" arg))
+  else if is_cls "Name" arg then MOtherName (name_id arg)
+  else MOtherNode arg.
 
 Definition get_members_value (c : ctx) : res (option members_val) :=
   do kws <- node_keywords c;;
   match first_kw (s2p "members") kws with
-  | Some k => do m <- members_of_value (field "value" k);; Ok (Some m)
+  | Some k => Ok (Some (members_of_value (field "value" k)))
   | None => Ok None
   end.
 
